@@ -480,7 +480,7 @@ func (w *world) oracle(dropped uint32, haveDropped bool) {
 		}
 		return res
 	}
-	missing := map[string]bool{}
+	missing := map[string]string{}
 	nSampledEnded := 0
 	neverExported := 0
 	for _, n := range w.order {
@@ -518,12 +518,12 @@ func (w *world) oracle(dropped uint32, haveDropped bool) {
 					"blocking mode: span %s (End returned at %d) never reached the exporter although %s (invoked %d) returned nil at %d", n, si.endRet, op.kind, op.inv, op.ret)
 				continue
 			}
-			if !missing[n] {
-				missing[n] = true
+			sg := fmt.Sprintf("%s-%s/%s", op.kind, op.level, oc)
+			if old, ok := missing[n]; !ok || (!strings.HasSuffix(old, "/plain") && strings.HasSuffix(sg, "/plain")) {
+				missing[n] = sg
 				r.Log("missing %s at %s@%d ctx=%s", n, op.kind, op.ret, oc)
 			}
-			// non-blocking: may have been dropped; settled by the counter below. Remember the context.
-			r.Res.Extra = map[string]string{"missing_ctx": fmt.Sprintf("%s-%s/%s", op.kind, op.level, oc)}
+			// non-blocking: may have been dropped; settled by the counter below
 		}
 	}
 	if haveDropped {
@@ -531,9 +531,27 @@ func (w *world) oracle(dropped uint32, haveDropped bool) {
 			r.Violate(prop, "drop-in-blocking-mode", "drop-in-blocking-mode", "drop counter = %d in blocking mode", dropped)
 		}
 		if !w.blocking {
-			if len(missing) > int(dropped) {
-				r.Violate(prop, "lost-span", "lost-span/uncounted/"+r.Res.Extra["missing_ctx"],
-					"%d span(s) %v ended before a successful flush/shutdown were never exported but only %d drop(s) were counted", len(missing), keys(missing), dropped)
+			var plainIDs, allIDs []string
+			plainSig, otherSig := "", ""
+			for id, sg := range missing {
+				allIDs = append(allIDs, id)
+				if strings.HasSuffix(sg, "/plain") || strings.HasSuffix(sg, "/after-shutdown") {
+					plainIDs = append(plainIDs, id)
+					if sg > plainSig {
+						plainSig = sg
+					}
+				} else if sg > otherSig {
+					otherSig = sg
+				}
+			}
+			sort.Strings(plainIDs)
+			sort.Strings(allIDs)
+			if len(plainIDs) > int(dropped) {
+				r.Violate(prop, "lost-span", "lost-span/uncounted/"+plainSig,
+					"%d span(s) %v ended before a successful flush/shutdown were never exported but only %d drop(s) were counted", len(plainIDs), plainIDs, dropped)
+			} else if len(allIDs) > int(dropped) {
+				r.Violate(prop, "lost-span", "lost-span/uncounted/"+otherSig,
+					"%d span(s) %v ended before a successful flush/shutdown were never exported but only %d drop(s) were counted", len(allIDs), allIDs, dropped)
 			}
 			if int(dropped) > neverExported {
 				r.Violate(prop, "overcounted-drop", "overcounted-drop", "drop counter %d exceeds the %d ended sampled spans that never reached the exporter", dropped, neverExported)
